@@ -21,7 +21,7 @@ Fixpoint c_trunc (s : str) : str :=
 
 (* ---- request_uri: the path is the target up to the first '?' or '#' ------------------ *)
 Definition uri_path (uri : str) : str :=
-  let p := c_trunc uri in
+  let p := uri in
   match find_char 63 p, find_char 35 p with
   | Some q, Some f => if Nat.ltb q f then firstn q p else firstn f p
   | Some q, None => firstn q p
